@@ -1,53 +1,36 @@
 (* C07 -- File-level validation equals row-by-row string validation, with true locations.
    Property theorems only; each closed with [exact] and followed by Print Assumptions.
    Every theorem quantifies over ALL string-level phases (raw issue type, basic, full, banned, nonempty,
-   temporal, mapping issues): the property is relative to string-level validation. *)
+   temporal, mapping issues): the property is relative to string-level validation.
+   The code as it now is = cf_fixed (f83491d), no reference scrambling (fd59dc0, cf_has_refs = false),
+   cf_fix_none / cf_fix_value / cf_fix_mask (fix-F2, fix-F3, fix-F4) all true.  Part 1 states the theorems
+   about that code; part 2 keeps the refutations for the unrepaired behaviour as the record of the defects. *)
 From Coq Require Import List ZArith NArith Permutation.
-From HV Require Import Base.Res Model.FileValidate Proofs.FileValidateProofs.
+From HV Require Import Base.Res Model.FileValidate Proofs.FileValidateProofs Proofs.FileValidateShuffle.
 Import ListNotations.
 
-(* ---- never raises ------------------------------------------------------------------------------
-   Full statement: for every readable table, validate returns.  It is FALSE of the code as it stands
-   (refuted below); it holds relative to totality of the Delay-value function on the table's Delay
-   groups, and when the onsets are numeric or no row has a Delay. *)
+(* ================================ part 1: the code as it now is ================================ *)
+
+(* ---- never raises: for ALL tables, relative only to totality of the Section variables ----------- *)
 Theorem C07_file_never_raises :
   forall (raw : Type) (raw_is_error : raw -> bool) (basic : N -> list raw) (full banned : ann -> list raw)
          (nonempty : ann -> bool) (tstate : Type) (temporal : tstate -> ann -> tstate * list raw)
          (tinit : tstate) (pre post : list raw) (cfg : config) (t : list row),
-    onsets_ok cfg t -> delays_convertible cfg t ->
+    cf_fixed cfg = true -> cf_fix_none cfg = true -> cf_fix_value cfg = true ->
     exists l, validate raw raw_is_error basic full banned nonempty tstate temporal tinit pre post cfg t = Ok l.
-Proof. exact validate_never_raises. Qed.
+Proof. exact validate_never_raises_repaired. Qed.
 Print Assumptions C07_file_never_raises.
 
-(* With the unit lookup repaired (fixed = true): numeric onsets and Delay values that are numbers with an
-   accepted spelling of a unit that has a conversion factor => never raises. *)
-Theorem C07_file_never_raises_fixed :
+(* for any configuration (repaired or not): never raises relative to totality of the Delay-value function
+   on the Delay groups and onsets of the table *)
+Theorem C07_file_never_raises_relative :
   forall (raw : Type) (raw_is_error : raw -> bool) (basic : N -> list raw) (full banned : ann -> list raw)
          (nonempty : ann -> bool) (tstate : Type) (temporal : tstate -> ann -> tstate * list raw)
          (tinit : tstate) (pre post : list raw) (cfg : config) (t : list row),
-    cf_fixed cfg = true ->
-    Forall (fun r => r_onset r <> None) t ->
-    Forall (fun r => Forall accepted_convertible (b_delays (r_body r))) t ->
+    decisions_total cfg t ->
     exists l, validate raw raw_is_error basic full banned nonempty tstate temporal tinit pre post cfg t = Ok l.
-Proof. exact validate_never_raises_fixed. Qed.
-Print Assumptions C07_file_never_raises_fixed.
-
-(* Finding 6 (was C07-F1; repaired in /repo by fix commit f83491d, so the code now has fixed = true):
-   "(Delay/2 Seconds,(Red))" -- accepted spelling; with the verbatim lookup (fixed = false) validation raises
-   TypeError, with the repaired lookup the same table validates.  Kept as the record of the defect. *)
-Theorem C07_file_never_raises_refuted :
-  exists t, Forall (fun r => r_onset r <> None) t /\
-            Forall (fun r => Forall accepted_convertible (b_delays (r_body r))) t /\
-            w_validate (cfg0 false false) t = Exn TypeError /\
-            exists l, w_validate (cfg0 false true) t = Ok l.
-Proof. exact never_raises_refuted. Qed.
-Print Assumptions C07_file_never_raises_refuted.
-
-(* C07-F2: an accepted unit without conversion factor ("(Delay/2 years,(Red))") raises even when fixed. *)
-Theorem C07_file_never_raises_no_factor_refuted :
-  w_validate (cfg0 false true) t_years = Exn TypeError.
-Proof. exact never_raises_no_factor_refuted. Qed.
-Print Assumptions C07_file_never_raises_no_factor_refuted.
+Proof. exact validate_never_raises. Qed.
+Print Assumptions C07_file_never_raises_relative.
 
 (* ---- labels ------------------------------------------------------------------------------------ *)
 (* every issue carries either no location at all or a row = index + 1 + header of an existing file row *)
@@ -61,8 +44,8 @@ Proof. exact validate_labels_in_range. Qed.
 Print Assumptions C07_labels_in_range.
 
 (* every issue that names a column is a basic issue of the cell standing in that row and column of the
-   FILE, or an unknown categorical key of that row and column -- provided the sidecar has no curly-brace
-   reference or the file is already sorted *)
+   FILE, or an unknown categorical key of that row and column (no_scramble holds for the code since fd59dc0:
+   cf_has_refs = false) *)
 Theorem C07_labels :
   forall (raw : Type) (raw_is_error : raw -> bool) (basic : N -> list raw) (full banned : ann -> list raw)
          (nonempty : ann -> bool) (tstate : Type) (temporal : tstate -> ann -> tstate * list raw)
@@ -71,15 +54,6 @@ Theorem C07_labels :
     no_scramble cfg t -> Forall (true_location raw basic cfg t) l.
 Proof. exact validate_true_location. Qed.
 Print Assumptions C07_labels.
-
-(* Was C07-F5 (repaired in /repo by fix commit fd59dc0, so the code now behaves as cf_has_refs = false):
-   with a curly-brace reference and an unsorted file the index-label alignment put the labels wrong
-   (cell of file row 3 reported at row 2).  Kept as the record of the defect. *)
-Theorem C07_labels_refuted :
-  exists l, w_validate (cfg0 true true) t_refs = Ok l /\
-            ~ Forall (true_location nat w_basic (cfg0 true true) t_refs) l.
-Proof. exact true_location_refuted. Qed.
-Print Assumptions C07_labels_refuted.
 
 (* ---- every error of every cell is kept, at its true location ------------------------------------ *)
 Theorem C07_cell_errors_kept :
@@ -96,10 +70,12 @@ Print Assumptions C07_cell_errors_kept.
 
 (* ---- rows whose cells are error-free: exactly the string-level issues ---------------------------
    The basic/full/banned issues labelled with the row are (as a multiset) the basic issues of its cells
-   followed by the full-string issues of its annotation; a row with Delay groups is validated as its
-   remainder plus each Delay group (pieces).  Hypotheses: onset column, all onsets numeric, no
-   scrambling, effective times pairwise distinct (no same-time merging). Temporal issues are tagged
-   STemporal and are not part of this equation. *)
+   followed by the full-string issues of its annotation (row_payload): a row with a numeric onset is validated
+   as the row without its movable Delay groups plus each moved Delay group; a row without a numeric onset as
+   the string assembled from its cells (plus the banned temporal tags).  With fix-F4 (cf_fix_mask = true) NO
+   hypothesis on the onsets is needed; for the unrepaired mask the onsets must all be numeric.  Remaining
+   hypotheses: no scrambling, effective times pairwise distinct (no same-time merging).  Temporal issues are
+   tagged STemporal and are not part of this equation. *)
 Theorem C07_row_equals_string :
   forall (raw : Type) (raw_is_error : raw -> bool) (basic : N -> list raw) (full banned : ann -> list raw)
          (nonempty : ann -> bool) (tstate : Type) (temporal : tstate -> ann -> tstate * list raw)
@@ -107,35 +83,15 @@ Theorem C07_row_equals_string :
          (k : nat) (r : row),
     validate raw raw_is_error basic full banned nonempty tstate temporal tinit pre post cfg t = Ok l ->
     cf_has_onset cfg = true -> no_scramble cfg t ->
-    Forall (fun r0 => r_onset r0 <> None) t -> distinct_times cfg t ->
+    cf_fix_mask cfg = true \/ Forall (fun r0 => r_onset r0 <> None) t ->
+    distinct_times cfg t ->
     nth_error t k = Some r -> cells_error_free raw raw_is_error basic r ->
     Permutation (string_raws raw l (k + row_adj cfg))
-                (flat_map basic (ids_of (r_body r))
-                 ++ flat_map (fun p => if truthy nonempty [p] then full [p] else []) (pieces (r_body r))).
+                (flat_map basic (ids_of (r_body r)) ++ row_payload raw full banned nonempty cfg r).
 Proof. exact validate_row_equals_string. Qed.
 Print Assumptions C07_row_equals_string.
 
-(* C07-F4: with an n/a onset the equation fails although every other hypothesis holds (the row-level
-   issue of file row 2 is lost). *)
-Theorem C07_row_equals_string_na_refuted :
-  exists l, w_validate (cfg0 false true) t_na = Ok l /\
-            cells_error_free nat w_err w_basic (plain_row None 5) /\
-            no_scramble (cfg0 false true) t_na /\ distinct_times (cfg0 false true) t_na /\
-            ~ Permutation (string_raws nat l 2)
-                (flat_map w_basic (ids_of (r_body (plain_row None 5)))
-                 ++ flat_map (fun p => if truthy w_nonempty [p] then w_full [p] else []) (pieces (r_body (plain_row None 5)))).
-Proof. exact row_equals_string_na_refuted. Qed.
-Print Assumptions C07_row_equals_string_na_refuted.
-
-(* ---- shuffling ----------------------------------------------------------------------------------
-   Full statement (kept visible):
-     distinct_onsets t -> Permutation t t' ->
-     issues t' == relabel pi (issues t)  (+ one ONSETS_UNORDERED iff t' is unsorted).
-   Proved here: (a) exactly one ONSETS_UNORDERED iff the file needs sorting, for every table;
-   (b) _partial: the string-level payload of every row with error-free cells follows the row to its new
-   position.  Missing for the full statement: invariance of the STemporal issues and of rows with cell
-   errors, which needs uniqueness of the sorted split frame under distinct keys and a relabelling lemma for
-   _run_onset_checks; that part is covered by the implementation-side oracle (testing) only. *)
+(* ---- shuffling ---------------------------------------------------------------------------------- *)
 Theorem C07_unordered_warning_once :
   forall (raw : Type) (raw_is_error : raw -> bool) (basic : N -> list raw) (full banned : ann -> list raw)
          (nonempty : ann -> bool) (tstate : Type) (temporal : tstate -> ann -> tstate * list raw)
@@ -145,7 +101,29 @@ Theorem C07_unordered_warning_once :
 Proof. exact validate_unordered_once. Qed.
 Print Assumptions C07_unordered_warning_once.
 
-Theorem C07_shuffle_invariant_partial :
+(* Shuffling the rows of a file whose onsets are numeric and whose effective times (onset, onset + Delay) are
+   pairwise distinct changes nothing except the row labels, which follow the rows, and the out-of-order warning:
+   [idents adj t l] is the issue list without ONSETS_UNORDERED in which every row label is replaced by the file
+   row it points to; the two content-labelled lists are equal as multisets.  Together with
+   C07_unordered_warning_once (exactly one warning iff the file is unsorted) this is the full clause.
+   (Proof: the issue list is, up to order, a function [content] of the rows; the sorted split frame is unique
+   for distinct keys -- sort_perm_eq -- so the temporal state visits the same strings in the same order.) *)
+Theorem C07_shuffle_invariant :
+  forall (raw : Type) (raw_is_error : raw -> bool) (basic : N -> list raw) (full banned : ann -> list raw)
+         (nonempty : ann -> bool) (tstate : Type) (temporal : tstate -> ann -> tstate * list raw)
+         (tinit : tstate) (pre post : list raw) (cfg : config) (t t' : list row) (l l' : list (issue raw)),
+    Permutation t t' ->
+    validate raw raw_is_error basic full banned nonempty tstate temporal tinit pre post cfg t = Ok l ->
+    validate raw raw_is_error basic full banned nonempty tstate temporal tinit pre post cfg t' = Ok l' ->
+    cf_has_onset cfg = true -> no_scramble cfg t -> no_scramble cfg t' ->
+    Forall (fun r => r_onset r <> None) t -> distinct_times cfg t ->
+    Permutation (idents raw (row_adj cfg) t l) (idents raw (row_adj cfg) t' l').
+Proof. exact validate_shuffle_invariant. Qed.
+Print Assumptions C07_shuffle_invariant.
+
+(* without the hypothesis on the onsets (repaired mask): the string-level payload of every row with error-free
+   cells follows the row to its new position *)
+Theorem C07_shuffle_rows_follow :
   forall (raw : Type) (raw_is_error : raw -> bool) (basic : N -> list raw) (full banned : ann -> list raw)
          (nonempty : ann -> bool) (tstate : Type) (temporal : tstate -> ann -> tstate * list raw)
          (tinit : tstate) (pre post : list raw) (cfg : config) (t t' : list row) (l l' : list (issue raw))
@@ -154,22 +132,93 @@ Theorem C07_shuffle_invariant_partial :
     validate raw raw_is_error basic full banned nonempty tstate temporal tinit pre post cfg t = Ok l ->
     validate raw raw_is_error basic full banned nonempty tstate temporal tinit pre post cfg t' = Ok l' ->
     cf_has_onset cfg = true -> no_scramble cfg t -> no_scramble cfg t' ->
-    Forall (fun r0 => r_onset r0 <> None) t ->
+    cf_fix_mask cfg = true \/ Forall (fun r0 => r_onset r0 <> None) t ->
     distinct_times cfg t -> distinct_times cfg t' ->
     nth_error t k = Some r -> nth_error t' k' = Some r ->
     cells_error_free raw raw_is_error basic r ->
     Permutation (string_raws raw l (k + row_adj cfg)) (string_raws raw l' (k' + row_adj cfg)).
 Proof. exact validate_shuffle_rows_follow. Qed.
-Print Assumptions C07_shuffle_invariant_partial.
+Print Assumptions C07_shuffle_rows_follow.
 
-(* non-vacuity: an unsorted table with a Delay group satisfies every hypothesis of C07_row_equals_string;
-   its Delay row (file row 3) gets the two row-level issues (remainder and Delay group), and the file gets
-   one ONSETS_UNORDERED. *)
+(* non-vacuity of the shuffle theorem: an unsorted table (with a moved Delay group and a row with a cell error)
+   and its reversal, which is sorted: 5 content-labelled issues, one warning before and none after. *)
+Example C07_shuffle_nonvacuous :
+  exists l l', w_validate (cfg0 false true true) t_sh = Ok l /\
+               w_validate (cfg0 false true true) (rev t_sh) = Ok l' /\
+               no_scramble (cfg0 false true true) t_sh /\ no_scramble (cfg0 false true true) (rev t_sh) /\
+               Forall (fun r => r_onset r <> None) t_sh /\ distinct_times (cfg0 false true true) t_sh /\
+               length (idents nat 2 t_sh l) = 5 /\ count_unordered nat l = 1 /\ count_unordered nat l' = 0.
+Proof. exact shuffle_nonvacuous. Qed.
+
+(* non-vacuity: an unsorted table with a movable Delay group, a Delay group that stays (years) and a row
+   without onset meets every hypothesis of C07_row_equals_string for the repaired code. *)
 Example C07_nonvacuous :
-  exists l, w_validate (cfg0 false false) t_ok = Ok l /\
-            no_scramble (cfg0 false false) t_ok /\ distinct_times (cfg0 false false) t_ok /\
-            Forall (fun r => r_onset r <> None) t_ok /\
-            cells_error_free nat w_err w_basic (delay_row (Some 1000000%Z) 5 {| d_num := Some 3000000%Z; d_unit := UKey true |}) /\
-            string_raws nat l 3 = [2; 2] /\ needs_sorting (cfg0 false false) t_ok = true /\
-            count_unordered nat l = 1.
+  exists l, w_validate (cfg0 false true true) t_ok = Ok l /\
+            no_scramble (cfg0 false true true) t_ok /\ distinct_times (cfg0 false true true) t_ok /\
+            Forall (cells_error_free nat w_err w_basic) t_ok /\
+            string_raws nat l 3 = [2; 2] /\ string_raws nat l 4 = [2] /\
+            needs_sorting (cfg0 false true true) t_ok = true /\ count_unordered nat l = 1.
 Proof. exact row_equals_string_nonvacuous. Qed.
+
+(* ================== part 2: records of the repaired defects (unrepaired behaviour) ================== *)
+
+(* Finding 6 (was C07-F1; repaired by f83491d): "(Delay/2 Seconds,(Red))" raised TypeError under the verbatim
+   unit lookup (cf_fixed = false); with the repaired lookup the same table validates. *)
+Theorem C07_file_never_raises_refuted :
+  exists t, Forall (fun r => r_onset r <> None) t /\
+            Forall (fun r => Forall accepted_convertible (b_delays (r_body r))) t /\
+            w_validate (cfg0 false false false) t = Exn TypeError /\
+            exists l, w_validate (cfg0 false true false) t = Ok l.
+Proof. exact never_raises_refuted. Qed.
+Print Assumptions C07_file_never_raises_refuted.
+
+(* between f83491d and fix-F2/F3: numeric onsets and numeric Delay values with an accepted spelling of a unit
+   that has a conversion factor never raised *)
+Theorem C07_file_never_raises_fixed :
+  forall (raw : Type) (raw_is_error : raw -> bool) (basic : N -> list raw) (full banned : ann -> list raw)
+         (nonempty : ann -> bool) (tstate : Type) (temporal : tstate -> ann -> tstate * list raw)
+         (tinit : tstate) (pre post : list raw) (cfg : config) (t : list row),
+    cf_fixed cfg = true ->
+    Forall (fun r => r_onset r <> None) t ->
+    Forall (fun r => Forall accepted_convertible (b_delays (r_body r))) t ->
+    exists l, validate raw raw_is_error basic full banned nonempty tstate temporal tinit pre post cfg t = Ok l.
+Proof. exact validate_never_raises_fixed. Qed.
+Print Assumptions C07_file_never_raises_fixed.
+
+(* was C07-F2 (repaired by fix-F2): "(Delay/2 years,(Red))" -- accepted unit without conversion factor -- raised
+   TypeError; the repaired code validates the same table. *)
+Theorem C07_file_never_raises_no_factor_refuted :
+  w_validate (cfg0 false true false) t_years = Exn TypeError /\
+  exists l, w_validate (cfg0 false true true) t_years = Ok l.
+Proof. exact never_raises_no_factor_refuted. Qed.
+Print Assumptions C07_file_never_raises_no_factor_refuted.
+
+(* was C07-F3 (repaired by fix-F3): a non-numeric Delay value or a Delay group in a row with n/a onset raised
+   ValueError; the repaired code validates the same tables. *)
+Theorem C07_file_never_raises_value_refuted :
+  w_validate (cfg0 false true false) t_abc = Exn ValueError /\
+  w_validate (cfg0 false true false) t_na_delay = Exn ValueError /\
+  (exists l, w_validate (cfg0 false true true) t_abc = Ok l) /\
+  (exists l, w_validate (cfg0 false true true) t_na_delay = Ok l).
+Proof. exact never_raises_value_refuted. Qed.
+Print Assumptions C07_file_never_raises_value_refuted.
+
+(* was C07-F5 (repaired by fd59dc0): with a curly-brace reference and an unsorted file the index-label
+   alignment put the labels wrong (cell of file row 3 reported at row 2). *)
+Theorem C07_labels_refuted :
+  exists l, w_validate (cfg0 true true false) t_refs = Ok l /\
+            ~ Forall (true_location nat w_basic (cfg0 true true false) t_refs) l.
+Proof. exact true_location_refuted. Qed.
+Print Assumptions C07_labels_refuted.
+
+(* was C07-F4 (repaired by fix-F4): with an n/a onset and the positional mask the equation failed although every
+   other hypothesis holds (the row-level issue of file row 2 was lost). *)
+Theorem C07_row_equals_string_na_refuted :
+  exists l, w_validate (cfg0 false true false) t_na = Ok l /\
+            cells_error_free nat w_err w_basic (plain_row None 5) /\
+            no_scramble (cfg0 false true false) t_na /\ distinct_times (cfg0 false true false) t_na /\
+            ~ Permutation (string_raws nat l 2)
+                (flat_map w_basic (ids_of (r_body (plain_row None 5)))
+                 ++ row_payload nat w_full w_banned w_nonempty (cfg0 false true false) (plain_row None 5)).
+Proof. exact row_equals_string_na_refuted. Qed.
+Print Assumptions C07_row_equals_string_na_refuted.
